@@ -166,7 +166,7 @@ def cond_ok(m: np.ndarray) -> bool:
 
 def make_cfg(rng) -> dict:
     return {"profile": "c06", "main_dim": rng.choice([1, 2, 2, 3, 3]), "n_steps": rng.choice([6, 10, 16, 24, 30]),
-            "n_clients": 1, "big_coll": rng.random() < 0.3, "p_float": rng.choice([0.0, 0.5]), "p_complex": 0.0,
+            "n_clients": 1, "big_coll": rng.random() < 0.3, "p_float": rng.choice([0.0, 0.5]), "p_complex": rng.choice([0.0, 0.0, 0.2]),
             "p_scaled": rng.choice([0.0, 0.4]), "p_degenerate": 0.0, "cold_start": rng.random() < 0.5, "warm": [],
             "p_law": rng.choice([0.35, 0.5])}
 
@@ -551,6 +551,14 @@ def run_case(case: dict, stats: dict) -> tuple[dict | None, list[dict]]:
                                      f"{getattr(y, 'shape', None)}, x is {type(x).__name__} {kind_of(x)} shape {x.shape}")
                 else:
                     good, why = rep_invariant(y)
+                    for attr in ("_line", "_plane"):
+                        cx, cy = getattr(x, attr, None), getattr(y, attr, None)
+                        if isinstance(cx, Tensor) and good and not (
+                                isinstance(cy, Tensor) and kind_of(cy) == kind_of(cx) and cy.shape == cx.shape):
+                            good, why = False, (f"cached {attr} of the image is "
+                                                f"{type(cy).__name__}{kind_of(cy) if isinstance(cy, Tensor) else ''} "
+                                                f"shape {getattr(cy, 'shape', None)}, of x it is "
+                                                f"{type(cx).__name__}{kind_of(cx)} shape {cx.shape}")
                     stats["rep_invariants"] += 1
                     if not good:
                         v = mk_violation(st, "L5-representation", base_of(x), f"after t*x on {type(x).__name__}: {why}")
